@@ -9,6 +9,7 @@
 //! trusted: listener part: ChainNotifier is instantiated (R5) as Notifier { header_cache, chain_listener: &mut Listener } (the real field is a shared reference to a listener with interior state); the Listener stub carries the ghost field `tip` and the trace preconditions; HeaderCache::{blocks_disconnected, block_connected} external_body (no effect on the listener); Poller::fetch_block returns a block whose hash is the requested header's (ChainPoller validates it); `drain(..).rev()` rewritten into pop() (R6); find_difference_from_header restated as an external_body callee contract in the Notifier impl (it is verified, same text, in the ChainNotifier impl above)
 //! trusted: poller part: `fn f(..) -> impl Future<Output = T> + Send + 'a { async move { B } }` is written `async fn f(..) -> T { B }` (R5, same body); ChainPoller<B, T> is instantiated with a stub block source whose get_best_block / get_header return anything (any source); Header::validate_pow / block_hash are external_body returning the uninterpreted hash_of(header); `.map_err(BlockSourceError::persistent)` gets an explicit closure (R8); Validate::T is spelled out
 //! trusted: R15 (deep slices): init::synchronize_listeners: the test that decides whether a fetched block is handed to a listener and the match that hands it over (listener = stub that records what it is told; `&L` written `&mut` as for ChainNotifier; ValidatedBlock = Box<BlockData> skeleton), the batch size / truncation pair of the fetch loop (with the function-local const MAX_BLOCKS_AT_ONCE of the production configuration), and the test that keeps the longest list of blocks to connect, verbatim as functions; fetching (futures), the header cache and the per-listener disconnection (ChainNotifier, above) are dropped and not claimed here
+//! trusted: block_validation: `impl Validate for BlockData :: fn validate` extracted whole against header / block stubs (proof of work, merkle root and witness commitment uninterpreted; validate_pow returns the header's own hash on success); R5: the associated type Self::T is written ValidatedBlock, R8: the function path given to map_err is a closure over the unit error
 //! assume: block sources never report the height u32::MAX (check_builds_on computes previous_header.height + 1 in u32)
 //! assume: the served block tree is consistent: one parent and one height per block hash (parent_of/height_of uninterpreted)
 //! assume: a header the poller stub hands back (poll_chain_tip's tip, look_up_previous_header's parent) carries the true height of its block in the served tree (`wf`): what is PROVED is the link between neighbours - every header a walk steps back from was checked by check_builds_on against the header stepped to, cached or fetched (finding F13) - which anchors the claimed heights where the walk meets a cached header or the chain the listener is on; a source that gives different answers for one hash, or a reported tip that is itself an ancestor of the known tip (DESIGN O16), is not excluded by any check
@@ -526,6 +527,57 @@ impl ChainPoller {
 //@with
     let height = header.height;
 //@end
+}
+// ---- the block handed to the listeners is the block of the header being connected (poll.rs, Validate for BlockData) ----
+pub mod block_validation {
+use vstd::prelude::*;
+#[derive(Clone, Copy, PartialEq, Eq)] pub struct BlockHash(pub u64);
+impl vstd::std_specs::cmp::PartialEqSpecImpl for BlockHash { open spec fn obeys_eq_spec() -> bool { true } open spec fn eq_spec(&self, other: &BlockHash) -> bool { *self == *other } }
+pub struct Target {}
+pub struct Header { pub id: u64 }
+pub uninterp spec fn hash_of(h: Header) -> BlockHash;
+impl Header {
+    #[verifier::external_body] pub fn target(&self) -> Target { unimplemented!() }
+    #[verifier::external_body] pub fn validate_pow(&self, required_target: Target) -> (r: Result<BlockHash, ()>) ensures r is Ok ==> r->Ok_0 == hash_of(*self) { unimplemented!() }
+    #[verifier::external_body] pub fn block_hash(&self) -> (r: BlockHash) ensures r == hash_of(*self) { unimplemented!() }
+}
+pub struct Block { pub header: Header, pub txs: u64 }
+pub uninterp spec fn merkle_ok(b: Block) -> bool;
+pub uninterp spec fn witness_ok(b: Block) -> bool;
+impl Block {
+    #[verifier::external_body] pub fn check_merkle_root(&self) -> (r: bool) ensures r == merkle_ok(*self) { unimplemented!() }
+    #[verifier::external_body] pub fn check_witness_commitment(&self) -> (r: bool) ensures r == witness_ok(*self) { unimplemented!() }
+}
+pub enum BlockData { FullBlock(Block), HeaderOnly(Header) }
+pub struct ValidatedBlock { pub block_hash: BlockHash, pub inner: BlockData }
+pub struct BlockSourceError {}
+impl BlockSourceError { #[verifier::external_body] pub fn persistent(e: &str) -> BlockSourceError { unimplemented!() } #[verifier::external_body] pub fn persistent_unit(e: ()) -> BlockSourceError { unimplemented!() } }
+pub type BlockSourceResult<T> = Result<T, BlockSourceError>;
+pub open spec fn header_of(d: BlockData) -> Header { match d { BlockData::FullBlock(b) => b.header, BlockData::HeaderOnly(h) => h } }
+impl BlockData {
+//@extract lightning-block-sync/src/poll.rs :: impl Validate for BlockData :: fn validate
+//@rw R5
+    BlockSourceResult<Self::T>
+//@with
+    BlockSourceResult<ValidatedBlock>
+//@rw R8
+    .map_err(BlockSourceError::persistent)?
+//@with
+    .map_err(|e: ()| -> (o: BlockSourceError) { BlockSourceError::persistent_unit(e) })?
+//@ret r
+//@ensures P C20 a-fetched-block-is-accepted-only-as-the-block-of-the-header-being-connected-with-valid-proof-of-work-and-for-a-full-block-a-transaction-list-its-header-commits-to
+    r is Ok ==> r->Ok_0.block_hash == block_hash && hash_of(header_of(self)) == block_hash && r->Ok_0.inner == self
+        && (self matches BlockData::FullBlock(b) ==> merkle_ok(b) && witness_ok(b)),
+//@mutant fetched_block_compared_with_its_own_hash
+    if pow_valid_block_hash != block_hash {
+//@with
+    if pow_valid_block_hash != header.block_hash() {
+//@mutant merkle_root_of_a_full_block_not_checked
+    if !block.check_merkle_root() {
+//@with
+    if false {
+//@end
+}
 }
 // ---- find_difference_from_best_block: at which height the k-th remembered ancestor of a stale listener tip is looked up ----
 //@extract lightning-block-sync/src/lib.rs :: impl ChainNotifier :: fn find_difference_from_best_block
